@@ -5,7 +5,7 @@ ID = "C05"
 HARNESS = "c05"
 N_CASES = {"quick": 60, "thorough": 600}
 N_SEARCH = {"quick": 1, "thorough": 1}
-SHARD = 160
+SHARD = 100
 HAS_MODEL_OUT = True
 CASES_HEADER = "From DnsV Require Import Model.Reload."
 RULE = ("schedules (lists of thread ids) replayed against the real handler through its verif yield points, on stamped "
